@@ -663,12 +663,16 @@ example :
     ((1 : ℝ) * 1 = nsq (sub pS (thetaCentre pS pE n 0 1 2 2))) := by
   norm_num [circPt, comb, nsq, dot, sub, add, cross, thetaChord, thetaCentre, midPoint, unitVec, smul]
 
-/-! ### round 6: tie to the source text (tables regenerated by `cbv/tables/c08.py` with `ast` on every run) -/
+/-! ### round 6: tie to the source text (tables regenerated by `cbv/tables/c08.py` with `ast` on every run)
+
+The translator normalises the source first: docstrings, comments, annotations dropped, parameters (other than `self`) and locals
+renamed `v0, v1, …` in order of first appearance — so only statement-level edits (operators, literals, calls, their order) show.
+E.g. in `arc_from_theta` `v2` is `angle`; in `arc_from_origin` `v9, v10` are `mag1, mag3`, `v4` is `r_multiplier`. -/
 
 /-- `arc_from_theta`'s guard `if not (0 < abs(angle) < np.pi * 2): raise`: the model's `thetaGuard` is the regenerated chained
     comparison (operators as they stand in the source now) on the operands `0, abs(angle), 2π`, for every angle -/
 theorem T_C08_tie_theta_guard (θ : Rat) :
-    operandsAt CBV.Gen.c08ThetaCompares 0 = ("0", ["abs(angle)", "np.pi * 2"]) ∧ CBV.Gen.c08ThetaNegated = [true] ∧
+    operandsAt CBV.Gen.c08ThetaCompares 0 = ("0", ["abs(v2)", "np.pi * 2"]) ∧ CBV.Gen.c08ThetaNegated = [true] ∧
     CBV.Gen.c08ThetaCompares.length = 1 ∧
     chain (opsAt CBV.Gen.c08ThetaCompares 0) [0, absR θ, twoPiF] = some (thetaGuard θ) := by
   refine ⟨by decide, by decide, by decide, ?_⟩
@@ -681,9 +685,9 @@ theorem T_C08_tie_theta_guard (θ : Rat) :
     (guard, `fact`, half of `vect_a`, the two clip bounds, the side test, `2π − angle`), and `np.clip` has the bounds the model uses -/
 theorem T_C08_tie_arc3 (x : Rat) :
     CBV.Gen.c08Arc3Compares.map (fun c => (c.1, c.2.2)) =
-      [("norm(denom)", ["1e-18"]), ("np.dot(np.cross(rad_start, rad_btw), np.cross(rad_start, rad_end))", ["0"])] ∧
+      [("norm(v8)", ["1e-18"]), ("np.dot(np.cross(v11, v12), np.cross(v11, v13))", ["0"])] ∧
     CBV.Gen.c08Arc3Numbers = [(1, 1000000000000000000), (1, 2), (1, 2), (-1, 1), (1, 1), (0, 1), (2, 1)] ∧
-    CBV.Gen.c08Arc3Clip = [["rad_start.dot(rad_end) / (mag1 * mag3)", "-1.0", "1.0"]] ∧
+    CBV.Gen.c08Arc3Clip = [["v11.dot(v13) / (v14 * v15)", "-1.0", "1.0"]] ∧
     chain (opsAt CBV.Gen.c08Arc3Compares 0) [absR x, mkRat 1 (10 ^ 18)] = some (decide (absR x < mkRat 1 (10 ^ 18))) ∧
     chain (opsAt CBV.Gen.c08Arc3Compares 1) [x, 0] = some (decide (x < 0)) ∧
     CBV.Gen.c08LengthCall = [["self.vertex_1.position", "self.third_point.position", "self.vertex_2.position"]] := by
@@ -697,12 +701,12 @@ theorem T_C08_tie_arc3 (x : Rat) :
     `0.25`, `** 0.5` in source order; defaults `adjust_center=True, r_multiplier=1.0`; one recursion with `adjust_center=False`;
     the result is `arc_mid(axis, center, p1, p2)` = `divide_arc(…, 1)[0]` with `count + 2` samples and the slice `[1:-1]` -/
 theorem T_C08_tie_origin (m1 m3 mult : Rat) :
-    CBV.Gen.c08OriginCompares.map (fun c => (c.1, c.2.2)) = [("abs(mag1 - mag3)", ["constants.TOL"]), ("r_multiplier", ["1"])] ∧
+    CBV.Gen.c08OriginCompares.map (fun c => (c.1, c.2.2)) = [("abs(v9 - v10)", ["constants.TOL"]), ("v4", ["1"])] ∧
     CBV.Gen.c08OriginNumbers = [(1, 1), (1, 2), (1, 1), (1001, 1000), (1, 2), (1, 2), (2, 1), (1, 4), (2, 1), (1, 2), (2, 1)] ∧
-    CBV.Gen.c08OriginDefaults = [("adjust_center", "True"), ("r_multiplier", "1.0")] ∧
-    CBV.Gen.c08OriginRecursion = [["p1", "p3", "new_center", "False"]] ∧
-    CBV.Gen.c08OriginArcMid = [["axis", "center", "edge_point_1", "edge_point_2"]] ∧
-    CBV.Gen.c08ArcMidCall = [["axis", "center", "point_1", "point_2", "1"]] ∧
+    CBV.Gen.c08OriginDefaults = [("v3", "True"), ("v4", "1.0")] ∧
+    CBV.Gen.c08OriginRecursion = [["v5", "v6", "v15", "False"]] ∧
+    CBV.Gen.c08OriginArcMid = [["v12", "v2", "v0", "v1"]] ∧
+    CBV.Gen.c08ArcMidCall = [["v0", "v1", "v2", "v3", "1"]] ∧
     CBV.Gen.c08DivideArcNumbers = [(2, 1), (1, 1), (-1, 1)] ∧
     chain (opsAt CBV.Gen.c08OriginCompares 0) [absR (m1 - m3), tol] = some (decide (absR (m1 - m3) > tol)) ∧
     chain (opsAt CBV.Gen.c08OriginCompares 1) [mult, 1] = some (decide (mult ≠ 1)) := by
@@ -715,7 +719,7 @@ theorem T_C08_tie_origin (m1 m3 mult : Rat) :
 /-- `ArcEdgeBase.is_valid`: `abs(norm(cross(arm_1, arm_2))) > constants.TOL` — the model's `arcValid` compares the squares with the
     same operator -/
 theorem T_C08_tie_valid (x : Rat) :
-    CBV.Gen.c08ValidCompares.map (fun c => (c.1, c.2.2)) = [("abs(f.norm(np.cross(arm_1, arm_2)))", ["constants.TOL"])] ∧
+    CBV.Gen.c08ValidCompares.map (fun c => (c.1, c.2.2)) = [("abs(f.norm(np.cross(v0, v1)))", ["constants.TOL"])] ∧
     chain (opsAt CBV.Gen.c08ValidCompares 0) [x, tol * tol] = some (decide (x > tol * tol)) := by
   refine ⟨by decide, ?_⟩
   have h : opsAt CBV.Gen.c08ValidCompares 0 = ["Gt"] := by decide
